@@ -12,839 +12,292 @@ Definition show_fres (r : fres) : string :=
   end.
 Definition check (rs : list rune) : string := digest (show_fres (format_res rs)).
 Definition full (rs : list rune) : string := show_fres (format_res rs).
-Eval vm_compute in ("<<<M8>>>" ++ check (runes_of_ascii "MetaData string_{
-} packet
-    Packet
-// c
-// c
-{
-    // @lengthOf(
-    zchar[ 65535 ]	metadata  ,} MetaData  body { u
-    packetx ,
-char[] roots `" ++ [233]%N ++ runes_of_ascii "`,
-i32 Header , uint32
-    packetx /// triple
-,	} packet Foo  { @rightPad ()
-match crc
-    as u128{ // c
-""it's"":	As , 0
-    :x_y_z , """"
-:
-msg_type } // @lengthOf(
-, match pack
-as	x_y_z {255: msg_type , } , i8 A , int8 BodyLength
-@lengthOf( tag ) , @calculatedFrom( ""CRC32""
-) match int as Header {
-4294967296	: x_y_z ,
-    // @lengthOf(
-    }	, match
-chars	as // a // b
-calculatedFrom {  [0 ,
-0
-, // c
-1 , 0123456789 , 00 // c
-, ""a\""b""	,// `tick` ""quote"" 'q'
-4294967296 ]:
-stringy
-    ,""`tick`"" : T }, @tag( 0 )@tag(
-    1 )
-@lengthOf(u8x ) u8x {  body
-    , repeat// trailing space 
-calculatedFrom x_y_z `two words` ,  } , match  falsey
-as leftPad {	007	:  A, [""" ++ [28040; 24687]%N ++ runes_of_ascii """ ] : tag ,
-1:
-    //
-    Pad ,}
-    , // c
-float64
-repeatCount , @tag(10 ) match stringy
-    as
-Logon {7:
-Pad, }	, }
-    packet Packet {
-@calculatedFrom( ""\n"" ) @calculatedFrom( ""`tick`"" ) matchKey
-, @lengthOf( zchar )
-roots	{repeat i16 Z9_, match
-    repeatCount as
-stringy { [ ""x y""
-    ]:packetx	, [""" ++ [128512]%N ++ runes_of_ascii """ , ""x y""	, ""\n"" ] : crc , },}
-// `tick` ""quote"" 'q'
-//x
-, // packet A { u8 x, }
-match // trailing space 
-tag as
-a1 // " ++ [128512]%N ++ runes_of_ascii " emoji
-{ ""abc"": packetx 1
-: u8x 1 : body
-007 : leftPad
-0123456789
-    :Header} ,
-i16 x_y_z
-    ,@calculatedFrom( ""{,}""
-    )o `it's` , string_@calculatedFrom( ""it's"" ) `crlf
-line` , match i8i8 as lengthOf
-    { [ 1 , ""a\\"" ,
-    42 ,""""  ,
-""a\\"" ]
-    // " ++ [128512]%N ++ runes_of_ascii " emoji
-    : o , 10
-    :
-Foo //x
-[7 ]:// trailing space 
-lengthOf , } ,repeat
-    A { repeat T { char[
-    007
-    //x
-    ] i64_ @lengthOf( Packet
-    // a // b
-    ) ,
-    match T as repeatCount // " ++ [27880; 37322]%N ++ runes_of_ascii "
-{  ""x y"" :
-As
-,
-    } , repeat metadata, msg_type
-{
-float64//
-float , i8 o`u8 x,` // " ++ [27880; 37322]%N ++ runes_of_ascii "
-,char[
-0 ]	A @calculatedFrom(
-""1""
-    )
-    `two words` //	t
-, i8 body
-    @lengthOf( Packet), } ,//
-} ,rootA{
-f32a
-@lengthOf( pack
-    ), }, repeat char[] u , }
-, }
-")).
-Eval vm_compute in ("<<<M1006>>>" ++ check (runes_of_ascii "root packet len
-    { @lengthOf(
-// " ++ [128512]%N ++ runes_of_ascii " emoji
-//	t
-A ) repeat u64 packetx
-,@calculatedFrom( ""a	b"" ) repeat charz { BodyLength calculatedFrom,
-    leftPad // " ++ [128512]%N ++ runes_of_ascii " emoji
-`it's` ,
-int32 // `tick` ""quote"" 'q'
-msg_type// " ++ [27880; 37322]%N ++ runes_of_ascii "
-, float64 i64_ , } ,
-    // c
-    string
-    MetaDataX
-@lengthOf(roots )
-, @lengthOf( len )
-@lengthOf( Logon )
-// " ++ [128512]%N ++ runes_of_ascii " emoji
-// @lengthOf(
-calculatedFrom @calculatedFrom( ""// no comment"" ) , zchar[3
-// a // b
-//	t
-] MetaDataX@calculatedFrom( ""it's""
-    ) `a\`
-,@leftPad//
-('0' )match//
-Foo as
-As { [ ""{,}"" , 255
-] : metadata , ""{,}"":
-Header,
-    // trailing space 
-    [""\n"" ] : stringy , ""a	b"" : x ,} // `tick` ""quote"" 'q'
-, @tag( 0123456789
-    // packet A { u8 x, }
-    ) Foo  {	char[ 0 ]// @lengthOf(
-rootA
-, },
-    // packet A { u8 x, }
-    i64_
-leftPad
-`a\` ,string A , match BodyLength as float  {
-7 : MetaDataX , 007:
-    int,  }
-,
-    } MetaData
-    crc{ u8 o `crlf
-line` ,	} // " ++ [128512]%N ++ runes_of_ascii " emoji
-packet crc
-{repeat
-    uint32 Foo`a\` , /// triple
-a1 ,
-@rightPad (' '
-    )repeat roots
-    ,
-@calculatedFrom(
-    """ ++ [233]%N ++ runes_of_ascii "t" ++ [233]%N ++ runes_of_ascii """ )  @rightPad ( ) BodyLength ,  repeat x_y_z ``,@rightPad ( ) repeat string pack  `
-` , @calculatedFrom( """ ++ [128512]%N ++ runes_of_ascii """ )
-    int64 Foo//x
-,
-char[ 65535 ] Foo // trailing space 
-@lengthOf( BodyLength )
-, @lengthOf(charz) //
-trueish // trailing space 
-charz
-, } packet msg_type
-    {u32
-Foo `line1
-line2` , T
-{
-pack ,  char[]
-    int , zchar[ 1 ]
-    _x @lengthOf( Pad) `it's` , }  ,
-msg_type ,
-    falsey lengthOf ,
-    char[
-    4294967296 ]
-string_
-@lengthOf(Pad) , @calculatedFrom( ""\n"" ) //
-o @lengthOf( options1	) , }
-    // c
-    packet u	{
-}
-")).
-Eval vm_compute in ("<<<M25>>>" ++ check (runes_of_ascii "root
-    packet u128{pack @lengthOf(MetaDataX)	`say ""hi""` ,repeat lengthOf {
-    int8 o
-    `crlf
-line` ,
-    } // " ++ [27880; 37322]%N ++ runes_of_ascii "
-, @lengthOf( tag
-    ) char[
-    007
-    ] chars @lengthOf(MetaDataX ) , u
-    @calculatedFrom( ""\n"" )// `tick` ""quote"" 'q'
-, @lengthOf(  Z9_
-    ) u32 A
-@lengthOf( charz ) ,u16 float@lengthOf(
-    As ) ,A u128
-// packet A { u8 x, }
-// packet A { u8 x, }
-`a\` /// triple
-, x_y_z@lengthOf(stringy  )
-`a\` ,
-}
-    root packet x_y_z
-    {@lengthOf( crc	)  i64 pack // " ++ [27880; 37322]%N ++ runes_of_ascii "
-@lengthOf(
-    float ) `say ""hi""`
-, }MetaData  uint8x{ }
-    root packet  trueish {  zchar[ 4294967296  ] float@lengthOf( matchKey
-    )/// triple
-,@lengthOf( o
-    ) repeat float rootA
-    , @tag(  7	) int64 // " ++ [128512]%N ++ runes_of_ascii " emoji
-falsey@lengthOf( options1 ) ,Logon// @lengthOf(
-{ tag
-@lengthOf(a1 ) , asx `// not a comment` , float32 zchar
-    ,Pad @calculatedFrom( ""`tick`"" )// @lengthOf(
-,
-    } , // trailing space 
-@lengthOf( int
-    ) repeat // a // b
-rootA// trailing space 
-u128 ,
-    repeat char[] leftPad , int8 _x // a // b
-,
-    Packet `` ,
-    // " ++ [27880; 37322]%N ++ runes_of_ascii "
-    match
-len	as uint8x { ""a	b""
-:
-lengthOf
-,""\" ++ [233]%N ++ runes_of_ascii """ :pack
-[ // a // b
-""x y""  ,""packet""
-, """ ++ [128512]%N ++ runes_of_ascii """
-    // " ++ [27880; 37322]%N ++ runes_of_ascii "
-    ,	""\" ++ [233]%N ++ runes_of_ascii """ , 255 , ""{,}""
-    ]:
-lengthOf
-    , [ ""abc"", 00  ,
-    ""a\\"" , ""// no comment""
-, 00 , 007, 0 , ""packet""]: Packet  }
-    // " ++ [27880; 37322]%N ++ runes_of_ascii "
-    , @leftPad()
-    u i64_ ,
-}
-packet trueish { }
-")).
-Eval vm_compute in ("<<<M4255>>>" ++ check (runes_of_ascii "root packet As {
-    @calculatedFrom(""{,}"")
-    // packet A { u8 x, }
-    // @lengthOf(
-    Header {
-        repeat uint8 uint8x `// not a comment`,
-    },
-    @tag(3)
-    repeat i64 i64_ `it's`,
-    @lengthOf(i8i8)
-    repeat i64 metadata,
-    repeat i8 chars `a\`,
-    repeat zchar[4294967296] x_y_z,
-    @leftPad('0')
-    char[42] options1,
-    repeat o,
-}
-
-root packet float {
-}
-
-packet Packet {
-    uint8x roots,
-    zchar[0123456789] msg_type `a\`,
-    @calculatedFrom(""" ++ [233]%N ++ runes_of_ascii "t" ++ [233]%N ++ runes_of_ascii """)
-    //
-    // trailing space 
-    repeat Packet {
-        repeat int64 T,
-        repeat zchar[1] falsey `it's`,
-        match leftPad as f32a {
-            // " ++ [128512]%N ++ runes_of_ascii " emoji
-            ""a\""b"" : MetaDataX,
-            [65535] : rootA,
-        },
-    },
-    @tag(007)
-    repeat char[4294967296] Z9_,
-    string Packet @calculatedFrom(""CRC32"") `u8 x,`,
-}
-
-root packet x {
-    pack tag ``,// `tick` ""quote"" 'q'
-}
-
-packet Z9_ {
-    char[] BodyLength,
-    zchar @lengthOf(x) `" ++ [28040; 24687; 31867; 22411]%N ++ runes_of_ascii "`,
-    uint8 float,
-    i64 u8x,
-    @lengthOf(leftPad)
-    //
-    int @lengthOf(lengthOf),
-    zchar {
-        zchar[0] Z9_,
-    },
-    float `crlf
-    line`,
-    repeat Z9_ {
-        repeat options1,
-        i32 As,
-        string stringy @lengthOf(leftPad) `" ++ [28040; 24687; 31867; 22411]%N ++ runes_of_ascii "`,
-    },
-    char[10] x,
-    int,
-}// c")).
-Eval vm_compute in ("<<<M3920>>>" ++ check (runes_of_ascii "options {
-    asx = true;
-    matchKey = ' ';
-    Z9_ = int8
-    BodyLength = char[]
-}
-
-MetaData calculatedFrom {
-    float32 tag,
-    char[] Header,
-    float64 charz,
-    falsey Z9_,
-    string A,
-    char[65535] leftPad,
-}
-
-packet BodyLength {
-    i16 Foo,
-    @tag(65535)
-    @lengthOf(lengthOf)
-    @tag(007)
-    x @calculatedFrom(""packet"") `u8 x,`,
-    Logon @calculatedFrom(""1"") `two words`,
-}
-
-MetaData options1 {
-}
-
-packet Packet {
-    pack,
-    repeat char[] o,
-    @lengthOf(uint8x)
-    string_ @calculatedFrom(""a\""b""),
-    @tag(0)
-    u16 repeatCount `
-        `,
-    string Packet,
-    @tag(0123456789)
-    match x as zchar {
-        42 : msg_type,
-        [3, ""{,}""] : u,
-        //
-        4294967296 : repeatCount,
-        [
-            ""a\\"", ""`tick`"", ""// no comment"", 3, """",
-            ""a\\""
-        ] : i64_,
-        ""`tick`"" : zchar,
-        [""// no comment""] : MetaDataX,
-    },
-    Foo @lengthOf(A),
-    char[65535] Pad `it's`,
-    match matchKey as x {
-        [
-            """ ++ [128512]%N ++ runes_of_ascii """, ""\" ++ [233]%N ++ runes_of_ascii """, 0123456789, ""CRC32"", ""`tick`"",
-            ""a\""b"", ""a	b""
-        ] : stringy,
-    },
-    // " ++ [128512]%N ++ runes_of_ascii " emoji
-    //	t
-    repeat uint16 Logon,
-}")).
-Eval vm_compute in ("<<<M922>>>" ++ check (runes_of_ascii "root packet o {	@leftPad
-// " ++ [128512]%N ++ runes_of_ascii " emoji
-//x
-( '0' ) u16 Pad , }  packet string_ { match o as
-    // c
-    chars{ [ 3 , """ ++ [128512]%N ++ runes_of_ascii """ // trailing space 
-] : _x  , }
-,
-char[]
-    rootA @lengthOf( f32a ) `it's` , @leftPad (
-// " ++ [128512]%N ++ runes_of_ascii " emoji
-// a // b
-) // packet A { u8 x, }
-repeat metadata//x
-,@calculatedFrom(	""it's""
-// trailing space 
-// `tick` ""quote"" 'q'
-)zchar[
-    // trailing space 
-    3 ]i8i8 @lengthOf(	options1)`line1
-line2`
-    , }
-root packet	metadata{
-    match MetaDataX as falsey{ 42 :
-Header ""1"":Z9_
-    , } ,
-    As { uint8
-// `tick` ""quote"" 'q'
-// a // b
-pack
-    `" ++ [28040; 24687; 31867; 22411]%N ++ runes_of_ascii "` ,	char[
-    // " ++ [27880; 37322]%N ++ runes_of_ascii "
-    4294967296
-]stringy@calculatedFrom(
-""`tick`""
-)
-    ,  i16//x
-rootA @lengthOf(  Foo )`u8 x,` //
-,
-//
-//	t
-}, @leftPad (
-    ) match charz
-as f32a { [ ""\n"" , 0123456789] :	x_y_z, """ ++ [28040; 24687]%N ++ runes_of_ascii """
-    //
-    : string_ }, @lengthOf( Packet )  match
-Packet as
-asx { [ // a // b
-42
-,
-""\" ++ [233]%N ++ runes_of_ascii """ ] : lengthOf  ,65535:falsey } , body leftPad
-    ,
-char[
-0 ]
-o @calculatedFrom(
-    // " ++ [27880; 37322]%N ++ runes_of_ascii "
-    ""a\""b""
-) `it's` , @rightPad ( ' ')char[ 65535 /// triple
-] a1`crlf
-line` , T @lengthOf(	pack
-)
-    `" ++ [28040; 24687; 31867; 22411]%N ++ runes_of_ascii "` ,
-}
-")).
-Eval vm_compute in ("<<<M365>>>" ++ check (runes_of_ascii "
-packet
-    trueish
-    // @lengthOf(
-    {
-    char[ 7
-]chars @calculatedFrom( """ ++ [128512]%N ++ runes_of_ascii """) , char[] uint8x@calculatedFrom( ""`tick`"" )// c
-`
-` ,  int16 // a // b
-metadata @calculatedFrom( """ ++ [128512]%N ++ runes_of_ascii """// @lengthOf(
-) `doc`, pack @lengthOf( stringy	) , u8
-float @lengthOf( leftPad ) , @lengthOf(
-chars ) f32a
-    trueish, repeat
-    zchar[ //	t
-4294967296 ]
-u  , @leftPad(
-    //
-    ' ' // trailing space 
-)@lengthOf( leftPad ) @tag(
-    7 ) repeat string	u128
-,
-    }
-    packet Header { u64 leftPad
-,	@lengthOf( u128	) repeat uint32
-T
-,@tag( 4294967296
-)repeat uint32
-    x_y_z ``
-    , T	,
-@tag( 1 ) zchar[7]	Packet@lengthOf( f32a  )
-// @lengthOf(
-//x
-, // trailing space 
-float32
-    lengthOf
-, // packet A { u8 x, }
-i32 // " ++ [128512]%N ++ runes_of_ascii " emoji
-calculatedFrom `crlf
-line` ,@tag(0123456789	)
-@tag( 1// trailing space 
-)
-//
-// `tick` ""quote"" 'q'
-@calculatedFrom( """ ++ [128512]%N ++ runes_of_ascii """ ) float32
-lengthOf@calculatedFrom( ""\n"" )
-    `" ++ [233]%N ++ runes_of_ascii "`
-, zchar[ 007 ] zchar @calculatedFrom(
-// a // b
-// packet A { u8 x, }
-""abc""	) `" ++ [28040; 24687; 31867; 22411]%N ++ runes_of_ascii "` /// triple
-,
-int32
-    roots
-,
-}
-")).
-Eval vm_compute in ("<<<M3723>>>" ++ check (runes_of_ascii "packet Packet {
-    u128 @calculatedFrom(""// no comment""),
-    zchar[255] repeatCount @lengthOf(Z9_) `doc`,
-    repeat matchKey {
-        char[10] msg_type @calculatedFrom(""a\\""),
-        zchar[255] o @calculatedFrom(""CRC32""),
-        repeat zchar[00] Header `it's`,
-        repeat asx {
-            BodyLength @lengthOf(matchKey) `{ , }`,
-            match metadata as a1 {
-                255 : calculatedFrom,
-                7 : u8x,
-                // @lengthOf(
-            },
-            char[007] float,
-            match charz as u8x {
-                ""a\""b"" : Logon,
-            },
-        },
-    },
-    repeat Foo `crlf
-        line`,
-    @tag(10)
-    rootA charz,
-    int @lengthOf(a1),
-}
-
-MetaData lengthOf {
-    zchar[0] uint8x,
-}
-
-packet len {
-}// @lengthOf(
-
-packet u {
-    match f32a as BodyLength {
-        0 : float,
-    },
-}
-
-MetaData leftPad {
-    u32 f32a `doc`,
-    zchar[255] i64_,
-    char[] zchar,
-    // `tick` ""quote"" 'q'
-    T i64_ `" ++ [233]%N ++ runes_of_ascii "`,
-}")).
-Eval vm_compute in ("<<<M4198>>>" ++ check (runes_of_ascii "packet Packet {
-    match a1 as calculatedFrom {
-        // `tick` ""quote"" 'q'
-        00 : falsey,
-        """ ++ [233]%N ++ runes_of_ascii "t" ++ [233]%N ++ runes_of_ascii """ : string_,
-        [00] : o,
-        ""it's"" : u,
-        //	t
-        10 : BodyLength,
-        ""1"" : BodyLength,
-    },
-}
-
-root packet calculatedFrom {
-    repeat uint64 int `line1
-    line2`,
-    string rootA ``,
-    @lengthOf(i64_)
-    leftPad @calculatedFrom(""\" ++ [233]%N ++ runes_of_ascii """) `line1
-    line2`,
-    uint8 x_y_z `" ++ [28040; 24687; 31867; 22411]%N ++ runes_of_ascii "`,
+Eval vm_compute in ("<<<M1971>>>" ++ check (runes_of_ascii "packet trueish {
+    @calculatedFrom("""")
+    u @lengthOf(a1),
 }
 
 options {
+    trueish = 42
 }
 
-MetaData crc {
-    pack asx `" ++ [233]%N ++ runes_of_ascii "`,
+options {
+    //	t
 }
 
-packet rootA {
-    @lengthOf(x_y_z)
-    repeat T Pad,
-    string len,
-    match float as matchKey {
-        ""a\""b"" : x,
-        007 : calculatedFrom,
-        255 : crc,
+packet Foo {
+    match matchKey as body {
+        // `tick` ""quote"" 'q'
+        [4294967296] : Packet,
+        00 : A,
     },
-    int32 float,
-    @leftPad(' ')
-    @lengthOf(stringy)
-    @calculatedFrom(""`tick`"")
-    repeat float {
-        zchar[00] crc @calculatedFrom(""1"") `// not a comment`,
+    @calculatedFrom(""x y"")
+    // " ++ [27880; 37322]%N ++ runes_of_ascii "
+    @lengthOf(a1)
+    repeat f64 rootA,
+}
+
+packet len {
+    @calculatedFrom(""// no comment"")
+    string T @lengthOf(f32a),
+    float32 chars,
+    @rightPad(' ')
+    repeat chars {
+        string A,
+        string i64_ `line1
+        line2`,
+        float32 i8i8,
+        uint64 matchKey @calculatedFrom(""abc"") `" ++ [233]%N ++ runes_of_ascii "`,
+    },
+    A `a\`,
+    @tag(00)
+    @tag(0123456789)
+    @tag(1)
+    u128 {
+        i64_ {
+            // c
+            // trailing space 
+            BodyLength,
+            i64 u `{ , }`,
+            match Z9_ as chars {
+                [""""] : float,
+                [0123456789, 42, 3, 10, 10] : stringy,
+                ""1"" : trueish,
+                // packet A { u8 x, }
+                ""packet"" : u128,
+                [""x y"", 7] : A,
+            },
+            int32 a1,
+        },
+        rootA `doc`,
         //x
-        string stringy `doc`,
+        // `tick` ""quote"" 'q'
     },
-    i16 asx `doc`,
-    // `tick` ""quote"" 'q'
+    @rightPad(' ')
+    repeat options1 {
+        int @calculatedFrom(""packet""),// " ++ [128512]%N ++ runes_of_ascii " emoji
+    },
+    repeat char[65535] falsey,
+    @rightPad()
+    repeat char[] i8i8,
+    repeat calculatedFrom msg_type,
+    @rightPad()
+    @tag(65535)
+    repeat calculatedFrom crc,
 }")).
-Eval vm_compute in ("<<<M4367>>>" ++ check (runes_of_ascii "
-root packet
-	stringy
-{
-    repeat u16
-falsey `
-`
-    ,
-
-u16 
-Pad
-
-, @lengthOf(// packet A { u8 x, }
-  x )
-	Logon
-{ repeat
-
-    zchar[ 65535]
-
-Packet`it's`
-
-,},}
-
-packet	len
-{
-@leftPad
-	( )
-	repeat 
-metadata
-
-{ match	asx
-    as  asx{ ""a\\""	:
-	f32a  ,}
-,
-}  // " ++ [128512]%N ++ runes_of_ascii " emoji
-    ,	uint16	falsey, body	,
-
-repeat
-	// a // b
-	string lengthOf `say ""hi""`
-	,}
-
-    packet
-    i64_
-	{
-
-x, @lengthOf(i64_
-)@tag(
-    7  // a // b
-
-  ) 
-      // `tick` ""quote"" 'q'
-		@calculatedFrom(
-""""	)
-
-    repeat zchar[ 1 ] i8i8,
-i64
-	i64_
-
-    @calculatedFrom(
-""\" ++ [233]%N ++ runes_of_ascii """
-
-    ) `line1
-line2` ,
-float//x
-	`tab	here`,
-
-    @calculatedFrom( """ ++ [128512]%N ++ runes_of_ascii """
-	)
-	char[]
-Logon// @lengthOf(
-
-	``  ,
-
-match leftPad	as	stringy
-    {0 : 
-float
-	,
-""\n""  : 	 // trailing space 
-Pad
-,}  , 
-i8i8
-    @lengthOf( roots )	,
-}  root packet  i8i8
-{
-tag
-
-@lengthOf(T
-    ) 
-`" ++ [28040; 24687; 31867; 22411]%N ++ runes_of_ascii "`// " ++ [128512]%N ++ runes_of_ascii " emoji
-  ,
-	} ")).
-Eval vm_compute in ("<<<M17>>>" ++ check (runes_of_ascii "  root
-//
-// `tick` ""quote"" 'q'
-packet lengthOf {repeat char[]asx`// not a comment` // trailing space 
-,	lengthOf{ string options1	, char[] A @calculatedFrom( ""\n"" )
-    ,	int16 trueish , },repeat  int16	stringy  , string Logon `{ , }`
-, @lengthOf(	metadata )
-match trueish	as
-    Foo { 00
-:
-T , 7
-: Z9_ , } ,
-string_ a1
-`" ++ [28040; 24687; 31867; 22411]%N ++ runes_of_ascii "`// packet A { u8 x, }
-, } packet zchar { @calculatedFrom(
-    ""x y"" //x
-) repeatCount`
-`, match
-    //
-    stringy as u {255 // `tick` ""quote"" 'q'
-:charz } , zchar[ 0123456789]
-    // a // b
-    Z9_
-@lengthOf(
-    crc )
-`it's` , @leftPad
-    ( '\x00' )zchar[
-    0 ]rootA @calculatedFrom( ""CRC32"" ) , @lengthOf( leftPad )
-    // packet A { u8 x, }
-    Foo @calculatedFrom(
-""{,}"" ) ,
-uint32 Foo
-`// not a comment` , f32 float , repeat matchKey ,
-Logon @lengthOf(
-    rootA
-) `" ++ [28040; 24687; 31867; 22411]%N ++ runes_of_ascii "` ,
-    }
-")).
-Eval vm_compute in ("<<<M1025>>>" ++ check (runes_of_ascii "  packet f32a {
-    @leftPad
-(/// triple
-)
-i32 repeatCount
-@calculatedFrom(
-    ""`tick`""	) `two words`
-,	repeat
-i32
-int
+Eval vm_compute in ("<<<M1503>>>" ++ check (runes_of_ascii "root packet msg_type {
+    u128,
+    @calculatedFrom(""" ++ [233]%N ++ runes_of_ascii "t" ++ [233]%N ++ runes_of_ascii """)
+    repeat char[3] metadata `crlf
+        line`,
+    char[255] Pad,
+    asx @calculatedFrom(""packet""),
+    repeat stringy `tab	here`,
     //x
-    ,
-char[ 00 ] Header
-    , repeat
-    zchar[ 10 ]	a1
-    ,string_ @calculatedFrom( ""// no comment""
-    ) , @leftPad
-    ( // `tick` ""quote"" 'q'
-)
-// trailing space 
-// c
-@tag(00	) @lengthOf( // packet A { u8 x, }
-string_
-)
-repeat
-    zchar[ 3]
-    x_y_z , repeat
-uint16 rootA`line1
-line2`, u8 roots @lengthOf( tag ) ,T@lengthOf(	A) `// not a comment`	,// a // b
-} MetaData
-    rootA//	t
-{
-pack
-    calculatedFrom , trueish packetx `` , Packet
-msg_type `it's` //x
-,	u64 repeatCount
-, uint8
-Z9_
-    `" ++ [28040; 24687; 31867; 22411]%N ++ runes_of_ascii "` , } options { chars  = u8 falsey
-=
-'\x00' MetaDataX
-=
-    char[] ; repeatCount =char[]
-} MetaData string_
-{ // @lengthOf(
-string chars , } 	 ")).
-Eval vm_compute in ("<<<M678>>>" ++ check (runes_of_ascii "packet
-    msg_type {  @rightPad
-( '\x00')	calculatedFrom
-chars,
-} packet
-// " ++ [128512]%N ++ runes_of_ascii " emoji
-// " ++ [27880; 37322]%N ++ runes_of_ascii "
-string_ { }
-MetaData o{ zchar[ 65535
-] a1
-, } root
-packet Foo {	f32a{ // " ++ [128512]%N ++ runes_of_ascii " emoji
-match len
-as
-Packet { [ 3
-    ] : body ,
-7: o  [ 00 ,
-    0 ,""x y"" // trailing space 
-,
-    // trailing space 
-    42 ]: u , """ ++ [28040; 24687]%N ++ runes_of_ascii """
-: Pad , }, i64
-A, string u8x, match stringy as As {65535 : i8i8 // " ++ [27880; 37322]%N ++ runes_of_ascii "
-, //x
-""CRC32"":u8x [ ""a\""b""
-    ,// @lengthOf(
-7 , ""\n""
-    , ""{,}"" , 0
-,
-// `tick` ""quote"" 'q'
-// a // b
-42, ""a\""b"" ]
-: MetaDataX // trailing space 
-,[ ""abc""] :
-    falsey
-, // @lengthOf(
-[ ""`tick`"" ]
-: calculatedFrom //
-, }
-,
-    } //x
-, } // " ++ [128512]%N ++ runes_of_ascii " emoji
-options
-{body = ""CRC32""
-    ; body =
-""a\""b""	u128
-= true ;
-    BodyLength  = // " ++ [128512]%N ++ runes_of_ascii " emoji
-10;
-leftPad=
-false ;}
+    //	t
+    repeat As `two words`,
+    @leftPad('\x00')
+    repeat matchKey `a\`,
+    @rightPad(' ')
+    repeat Pad {
+        repeat u,
+        // trailing space 
+        // packet A { u8 x, }
+        repeat char[] uint8x,
+    },
+    u128 {
+        repeat As `u8 x,`,
+        pack msg_type,
+        uint32 lengthOf @calculatedFrom(""1""),
+        match roots as x {
+            ""{,}"" : Pad,
+        },
+    },
+}
 
+root packet tag {
+    string pack,
+}
+
+root packet u8x {
+    string pack `doc`,
+    @lengthOf(options1)
+    f32 matchKey @calculatedFrom(""`tick`"") `two words`,
+    @leftPad('\x00')
+    @lengthOf(Packet)
+    @tag(007)
+    int32 Pad @calculatedFrom(""a\\""),
+    @calculatedFrom("""")
+    string a1 @lengthOf(metadata),
+    match u128 as Foo {
+        [""`tick`""] : msg_type,
+        10 : msg_type,
+        00 : len,
+        ""`tick`"" : _x,
+        1 : repeatCount,
+        [1, 1] : pack,
+    },
+    @leftPad()
+    float64 pack `
+        `,
+}")).
+Eval vm_compute in ("<<<M375>>>" ++ check (runes_of_ascii "
+options{ MetaDataX= ' '
+//	t
+// trailing space 
+; trueish = """ ++ [233]%N ++ runes_of_ascii "t" ++ [233]%N ++ runes_of_ascii """ ;
+    /// triple
+    } packet BodyLength{@lengthOf( repeatCount ) char[65535 ]
+    crc @calculatedFrom(
+    """"
+),zchar[0 ]
+x_y_z @calculatedFrom( ""packet"" )`a\` , } packet Header	{	repeat
+    // " ++ [128512]%N ++ runes_of_ascii " emoji
+    T
+{
+//x
+//x
+u128 chars , }, match Pad as
+    crc{ ""a\""b"" :	x , }
+    ,
+    @lengthOf(	rootA
+) @lengthOf(
+stringy )
+i32
+    // a // b
+    x
+,
+    @calculatedFrom( """ ++ [128512]%N ++ runes_of_ascii """
+) int8	u @lengthOf(
+    Pad
+) `doc` , @tag(
+65535)charz { a1
+_x,
+repeat	float32 Header `say ""hi""` ,char u , } ,
+    //x
+    @leftPad ( )
+@leftPad (
+    '0' ) @rightPad( '\x00'
+    )
+    match falsey as As { // " ++ [128512]%N ++ runes_of_ascii " emoji
+""a\\"": pack } /// triple
+,repeat metadata , match i8i8 as u {
+[ 4294967296 ,
+    42 ] // @lengthOf(
+: uint8x ,}  , repeat uint16
+    chars
+// " ++ [27880; 37322]%N ++ runes_of_ascii "
+// @lengthOf(
+`u8 x,` ,
+u16 repeatCount`crlf
+line` ,
+} packet
+    tag {
+    char[ 7 ]// `tick` ""quote"" 'q'
+trueish  , int8
+    string_ ``
+// @lengthOf(
+// @lengthOf(
+,
+    } 	 ")).
+Eval vm_compute in ("<<<M149>>>" ++ check (runes_of_ascii "MetaData As{
+    u//
+matchKey	, char[] T	, char[] Foo// @lengthOf(
+`{ , }`,
+    }root
+packet
+    T { @lengthOf(
+tag ) @tag( 0123456789 ) match repeatCount as
+    BodyLength { """ ++ [233]%N ++ runes_of_ascii "t" ++ [233]%N ++ runes_of_ascii """  :o ,
+65535 : float,
+    ""a	b""	: _x , [ ""x y"" , 65535
+// packet A { u8 x, }
+//x
+] : string_ ,}
+,}
+    root packet
+_x { match msg_type
+    // trailing space 
+    as
+    f32a {""\" ++ [233]%N ++ runes_of_ascii """ : Header 3	:
+repeatCount [7, ""a	b"" ] :
+_x
+, ""it's"":
+stringy 10
+:
+//	t
+/// triple
+As ,""it's"" :lengthOf }
+, @calculatedFrom(""packet"" ) int64// `tick` ""quote"" 'q'
+falsey ,	@leftPad// packet A { u8 x, }
+( )
+//	t
+//
+char[ 1 ]len// @lengthOf(
+@lengthOf( Foo ) ,	chars
+T ,
+    zchar[
+007	]	options1
+,
+match f32a as
+asx
+{[ ""1"" ] :matchKey, """ ++ [28040; 24687]%N ++ runes_of_ascii """: As ,
+    // c
+    4294967296 : options1 ,
+}
+    , }	MetaData o
+    {	zchar[ 42] repeatCount ,packetx falsey,Packet options1
+`{ , }` ,} options { falsey = ""a\\""	} // " ++ [128512]%N ++ runes_of_ascii " emoji")).
+Eval vm_compute in ("<<<M63>>>" ++ check (runes_of_ascii "// trailing space 
+options{
+    asx = """ ++ [233]%N ++ runes_of_ascii "t" ++ [233]%N ++ runes_of_ascii """ zchar = 7 i8i8=65535 ;	Pad =i8
+; } // a // b
+MetaData
+    string_  { //	t
+char[ 0 // packet A { u8 x, }
+]zchar ,// `tick` ""quote"" 'q'
+char[ 4294967296] msg_type ,
+u16
+MetaDataX `" ++ [233]%N ++ runes_of_ascii "`,} root packet Foo{	f64
+BodyLength
+@lengthOf(
+repeatCount ) ,
+repeat asx {
+char[ 00] stringy // `tick` ""quote"" 'q'
+@lengthOf( Foo)
+    ,  i8 string_,}
+    ,
+float64 i8i8 `say ""hi""` ,  @tag( 0 ) MetaDataX
+    {// " ++ [27880; 37322]%N ++ runes_of_ascii "
+repeat uint16 stringy
+,	repeat x_y_z , asx, } ,
+    @rightPad( '\x00' ) repeat
+    char[7
+] metadata
+// a // b
+// " ++ [27880; 37322]%N ++ runes_of_ascii "
+, i16 x
+, match falsey
+    as
+asx	{""a\""b""
+:
+    u ,} // @lengthOf(
+,// trailing space 
+@calculatedFrom(  """"//
+)
+match f32a
+as
+u8x {
+//x
+//
+""a\""b"":matchKey , } //
+,
+x `" ++ [233]%N ++ runes_of_ascii "`  ,char[
+65535 ]
+string_ `u8 x,` , }
+// c
 ")).
-Eval vm_compute in ("<<<M3539>>>" ++ check (runes_of_ascii "options {
+Eval vm_compute in ("<<<M1456>>>" ++ check (runes_of_ascii "options {
     StringPrefixLenType = u16;
     ArrayPrefixLenType = u32;
     FixedStringPadFromLeft = false;
@@ -887,1420 +340,679 @@ root packet Order {
 C32""),
 }
 ")).
-Eval vm_compute in ("<<<M942>>>" ++ check (runes_of_ascii "MetaData
-    body
-    {
-i64 msg_type ,
-// trailing space 
-/// triple
-} packet MetaDataX {	zchar[65535 ] As @lengthOf(
-    matchKey ) `{ , }`,}packet Pad { match
-//x
-// c
-chars as // @lengthOf(
-matchKey
-    //	t
-    { 0123456789 :MetaDataX , 0123456789
-    :
-i8i8 ,[
-"""",
-    // packet A { u8 x, }
-    1 ,  ""x y"" /// triple
-, ""// no comment"" ,
+Eval vm_compute in ("<<<M1459>>>" ++ check (runes_of_ascii "
+options
+	{	LittleEndian 
+=true	;
+    FixedStringPadFromLeft=  true
+    ;  FixedStringPadChar ='0'	; 
+} packet
+    Trade {
+string 
+clOrdID,	char[]
+Px 
+,u32
+x ,}	packet	Reject 
+{
+
+    int32
+
+    Side2 ,
+	repeat char[ 
 3
-,
-//x
-// c
-""// no comment"" ,  ""a\""b"" ,
-    65535 ]
-    :  As ,
-    //x
-    [
-255
-, ""1"" , 0, ""packet""]
-: float , ""{,}"" : stringy , ""`tick`"" :
-    Logon,
-} ,
-    repeat
-    //	t
-    Z9_ _x , @leftPad('\x00' )
-/// triple
-// " ++ [27880; 37322]%N ++ runes_of_ascii "
-uint8 charz`// not a comment`
-, //x
-@tag(// " ++ [27880; 37322]%N ++ runes_of_ascii "
-0123456789
-) @rightPad ( '\x00' )
-@tag(
-1 )	stringy	,
-    }")).
-Eval vm_compute in ("<<<M710>>>" ++ check (runes_of_ascii "packet
-leftPad { char[
-42  ]falsey , }
-    options{ x_y_z
-= ""a	b"" ; zchar= zchar[ 255]
-    options1 = false ;
-    BodyLength =
-'0'
-    ; i8i8 =char[] ; }packet crc
-{
-char[ 007 // `tick` ""quote"" 'q'
-] stringy @calculatedFrom(""a\""b""
-    )`say ""hi""`
-, match  tag as matchKey{ [ """ ++ [128512]%N ++ runes_of_ascii """ ,
-    3	,// " ++ [27880; 37322]%N ++ runes_of_ascii "
-""" ++ [28040; 24687]%N ++ runes_of_ascii """] :
-    trueish,} , uint32 i64_
-    ,@rightPad (' '
-) @calculatedFrom( ""{,}"" )	@calculatedFrom(
-""a	b"" ) Foo tag `" ++ [233]%N ++ runes_of_ascii "`
-    , repeat zchar[
-    // " ++ [27880; 37322]%N ++ runes_of_ascii "
-    0 ] Logon
-`say ""hi""`
-,i8i8
-u8x ,zchar @calculatedFrom(
-    ""\" ++ [233]%N ++ runes_of_ascii """ ),	} options {_x =
-    false ;
-    Foo =  ""abc"" o
-    = uint32  ; f32a
-= """ ++ [28040; 24687]%N ++ runes_of_ascii """
-charz // " ++ [27880; 37322]%N ++ runes_of_ascii "
-='\x00' ;
-    } MetaData x_y_z
-    {// c
-}")).
-Eval vm_compute in ("<<<M349>>>" ++ check (runes_of_ascii "root
-packet packetx{ match x
-as repeatCount // " ++ [128512]%N ++ runes_of_ascii " emoji
-{ 65535 //x
-: i8i8 10 :
-x_y_z 42// @lengthOf(
-: packetx 0123456789
-:metadata[ ""\" ++ [233]%N ++ runes_of_ascii """]
-    :
-    x_y_z
-,
-""a\\""
-:i8i8
-, } , stringy { // c
-stringy
-    i64_ , repeat Header As
-    `two words` ,
-    } , repeat char[ 007// `tick` ""quote"" 'q'
-] u8x
-    `line1
-line2` , @lengthOf( charz )
-    // packet A { u8 x, }
-    @leftPad (
-'0' ) int16 BodyLength ,  repeat
-float32 repeatCount	, match trueish as MetaDataX
-    { ""a	b""
-    // a // b
-    :
-    x	,	}
-,char[ 0 ] matchKey @lengthOf( float ) , @lengthOf( i64_)@lengthOf( repeatCount
-) // " ++ [27880; 37322]%N ++ runes_of_ascii "
-@lengthOf(
-float )f32 Z9_ , }")).
-Eval vm_compute in ("<<<M1278>>>" ++ check (runes_of_ascii "MetaData
-o
-{
-uint8 asx ,// " ++ [27880; 37322]%N ++ runes_of_ascii "
-}
-MetaData _x { A Z9_
-`a\` , } packet string_
-{ repeat
-x_y_z f32a,
-charz
-//x
-// " ++ [27880; 37322]%N ++ runes_of_ascii "
-{ msg_type @lengthOf( A
-)
-    ,} ,
-uint16
-stringy, @calculatedFrom(
-""" ++ [233]%N ++ runes_of_ascii "t" ++ [233]%N ++ runes_of_ascii """)	leftPad msg_type , @tag(
-7 ) @calculatedFrom(
-    //	t
-    """ ++ [28040; 24687]%N ++ runes_of_ascii """)
-    i64_ , repeat trueish
-x	`doc`  ,uint16 metadata//	t
-@lengthOf(
-i8i8 )`tab	here` ,repeat tag Logon , repeat repeatCount metadata
-`` // a // b
-, // trailing space 
-} packet roots
-{
-repeat x_y_z  {
-    // `tick` ""quote"" 'q'
-    char[4294967296] stringy`line1
-line2`
-,uint16
-    body
-    , }, @leftPad (' ')
-    MetaDataX
-stringy
-,}
-")).
-Eval vm_compute in ("<<<M3802>>>" ++ check (runes_of_ascii "
-// a // b
-  MetaData crc  {
-uint8x
-len ,
 
-string 
-BodyLength , asx body 
-      // packet A { u8 x, }
-		`" ++ [233]%N ++ runes_of_ascii "`,  calculatedFrom i8i8	,}
+    ] clOrdID ,
+    i32
 
-packet
-Header
-	{ @tag(
-    3 ) int64
+tag7,}
 
-    uint8x
-,repeat 
-lengthOf
-	{
-
-match 
-x  as body
-{
-""" ++ [128512]%N ++ runes_of_ascii """  //	t
-	  :trueish
-	3 :  MetaDataX
-
-    , [ ""it's""
-,""""	] :
-o
-, ""CRC32"":
-    i8i8	,
-    }// trailing space 
-    ,
-} , i64
-lengthOf
-    `u8 x,`,} 
-packet pack{ @rightPad  // trailing space 
-	(
-) @tag(
-
-    255 )
-
-repeat
-string 
-leftPad
-
-`crlf
-line` , 
-}
-
-    options {
-}
-
-    packet Packet {
-
-lengthOf 
-,
-
-} ")).
-Eval vm_compute in ("<<<M769>>>" ++ check (runes_of_ascii "packet// packet A { u8 x, }
-MetaDataX{ zchar[ 00
-] // `tick` ""quote"" 'q'
-_x `" ++ [233]%N ++ runes_of_ascii "`	, @lengthOf(
-T )  uint32
-    asx @lengthOf(
-x ) ,
-float32 tag @lengthOf( Z9_), match uint8x
-as options1 {
-""" ++ [28040; 24687]%N ++ runes_of_ascii """ // " ++ [27880; 37322]%N ++ runes_of_ascii "
-:
-    len , 4294967296 :
-As , [  0
-, """ ++ [233]%N ++ runes_of_ascii "t" ++ [233]%N ++ runes_of_ascii """  ,00
-,""" ++ [233]%N ++ runes_of_ascii "t" ++ [233]%N ++ runes_of_ascii """ , ""\n""  ,
-0 , 0123456789
-    //
-    ] :
-int } , zchar[
-007 ]
-    rootA @lengthOf( asx ) ,char[] Packet@calculatedFrom( ""it's"" ) ,
-@lengthOf(
-x )
-    @tag( 3 )
-@tag(7 )
-    repeat zchar[//
-007 ]
-    As// " ++ [27880; 37322]%N ++ runes_of_ascii "
-`" ++ [28040; 24687; 31867; 22411]%N ++ runes_of_ascii "` , @lengthOf(
-packetx  ) Pad
-    // @lengthOf(
-    ,}
-")).
-Eval vm_compute in ("<<<M3469>>>" ++ check (runes_of_ascii "packet A // c1
-{ // c2
-u8 // c3
-a
-    // c4
-,
-    // c5
-}
-    // c6
-packet
-    // c7
-B { // c9
-u16 // c10
-b , // c12
-}
-    // c13
-root
-    // c14
-packet // c15
-P { u8 // c18
-K1 // c19a
-  // c19b
-, // c20a
-  // c20b
-u8 K2 , // c23a
-  // c23b
-match K1
-    // c25
-as
-    // c26
-M1 // c27
-{ 1 // c29
-: // c30
-A // c31
-, // c32a
-  // c32b
-} // c33
-, // c34
-match // c35
-K2 // c36a
-  // c36b
-as
-    // c37
-M2 // c38
-{ // c39
-1 : // c41a
-  // c41b
-B // c42a
-  // c42b
-, // c43
-} // c44a
-  // c44b
-, } ")).
-Eval vm_compute in ("<<<M899>>>" ++ check (runes_of_ascii "packet u8x
-    { @lengthOf( trueish )
-// trailing space 
-/// triple
-@lengthOf( matchKey ) repeat
-Packet{ packetx @calculatedFrom(
-    ""a\""b"" )  `` ,
-}  ,@calculatedFrom(
-""1"" ) f32
-o
-    ,char[ // a // b
-0123456789 // `tick` ""quote"" 'q'
-] crc
-,char[]charz
-    ,rootA
-A
-    ,repeat char[]  _x,
-@calculatedFrom(""{,}""
-)
-leftPad , char[ 65535 ] rootA// c
-,//	t
-@lengthOf( charz // c
-)@lengthOf(u8x
-) @lengthOf(float
-    )
-repeat zchar[// trailing space 
-0123456789 ] u8x ,	}
-")).
-Eval vm_compute in ("<<<M898>>>" ++ check (runes_of_ascii "
-packet Packet { int16 f32a,	match //	t
-string_ as u8x { """ ++ [128512]%N ++ runes_of_ascii """ :
-msg_type
-, [
-""{,}""
-    ,4294967296 ]
-    // " ++ [27880; 37322]%N ++ runes_of_ascii "
-    :
-metadata	0123456789 : matchKey
-, 3 :
-    zchar,  }// `tick` ""quote"" 'q'
-,uint16
-As @calculatedFrom( ""a	b"")  ,
-    @rightPad ( ) repeat zchar[3 ]u128 ,
-} root packet
-    u8x { // `tick` ""quote"" 'q'
-o
-    , @calculatedFrom(  ""{,}""
-    ) f32 x_y_z@lengthOf( A ) //
-,@lengthOf( uint8x  )// `tick` ""quote"" 'q'
-repeat
-zchar[ 7 ]  uint8x , }")).
-Eval vm_compute in ("<<<M598>>>" ++ check (runes_of_ascii "// a // b
-MetaData	options1 { //
-Z9_
-    calculatedFrom , } root packet Z9_{ int falsey `tab	here` ,	@lengthOf( a1
-) @tag(
-    007
-    // trailing space 
-    ) match trueish
-as string_ {""a\""b""
-:	Pad , ""`tick`"":a1
-, [ ""// no comment"" ,7,0 , // " ++ [128512]%N ++ runes_of_ascii " emoji
-0 , ""a\""b""
-, 10
-    , 4294967296 , 007 ] : packetx , [ 00 , // trailing space 
-""a\\""] :// c
-a1 ""CRC32""
-:
-    //
-    string_,
-    3
-    :uint8x,} , } packet //
-x_y_z{
-char//
-Logon , }
-")).
-Eval vm_compute in ("<<<M770>>>" ++ check (runes_of_ascii "
-packet
-T //x
-{ matchKey Header
-,
-//
-/// triple
-zchar[
-3 ]
-a1,
-// packet A { u8 x, }
-// trailing space 
-} MetaData
-matchKey
-{
-    // " ++ [27880; 37322]%N ++ runes_of_ascii "
-    f64 f32a`two words`
-, zchar[
-    255
-    ] Logon
-// `tick` ""quote"" 'q'
-// packet A { u8 x, }
-`{ , }` , zchar[ // `tick` ""quote"" 'q'
-1 ] calculatedFrom , msg_type
-// `tick` ""quote"" 'q'
-// a // b
-MetaDataX
-`{ , }` //x
-, a1 lengthOf `say ""hi""` ,
-    }root
-    packet pack{x	int , }
-")).
-Eval vm_compute in ("<<<M762>>>" ++ check (runes_of_ascii "options {} packet u {u @lengthOf( // @lengthOf(
-crc ),  @tag( 65535
-) T @calculatedFrom(
-""// no comment"" ) , // packet A { u8 x, }
-pack MetaDataX
-,	repeat float , @lengthOf( chars
-)//	t
-char[] charz	,
-    match // packet A { u8 x, }
-T	as Z9_{//
-7 :
-    asx }
-,zchar[ 65535 ] a1 @lengthOf( T	)
-    ,	match A as tag
-{ ""x y"" :
-repeatCount 0
-:
-u8x ,
-[ ""a	b"" ] :matchKey ,
-    42: repeatCount , } , }
-")).
-Eval vm_compute in ("<<<M3796>>>" ++ check (runes_of_ascii "  // trailing space 
-	packet
-	i64_ {  uint8  body  ,
-@calculatedFrom(
-	""\n"" 
-)	repeat
-
-    BodyLength { repeat 
-        // trailing space 
-    // packet A { u8 x, }
-crc
-len `" ++ [233]%N ++ runes_of_ascii "` ,As
-    ,	repeat
-    char[]
-
-Header, } 
-, match T
-
-as 
-T
-
-    {
-
-    3:repeatCount
-	, } ,	match  tag
-as 
-pack
-{
-
-""a	b""	:	//
-	string_ ,
-
-} ,zchar[
-
-    10] a1  ``	,
-    @tag( 
-3 //	t
-)
-
-string int
-, }")).
-Eval vm_compute in ("<<<M4082>>>" ++ check (runes_of_ascii "MetaData o {
-    u32 string_,
-    char[] a1 `crlf
-    line`,
-    int8 options1,
-}
-
-packet Foo {
-    @lengthOf(matchKey)
-    f32 f32a,
-    @tag(0)
-    // @lengthOf(
-    match MetaDataX as trueish {
-        //	t
-        255 : T,
-        4294967296 : pack,
-        3 : falsey,
-        ""1"" : uint8x,
-        7 : u128,
-        4294967296 : MetaDataX,
-    },
-    i32 roots,
-}")).
-Eval vm_compute in ("<<<M4102>>>" ++ check (runes_of_ascii "options  {
-	roots
-=
-
-3 leftPad
-	    /// triple
-	// c
-=
-
-string
-
-;
-
-    packetx
-=	false 
-;
-zchar
-
-=
-	true
-
-options1
-
-    =
-    false ;
-    } MetaData
-string_  {
-
-    i32 x_y_z,
-    char[
-    4294967296
-
-    ] zchar  `two words` ,  // c
-  	char[
-	42
-
-]
-metadata,}
-packet
-_x
-{
-	int8 rootA 
-`doc`,
-
-} options
-    {  lengthOf =	""// no comment"" } ")).
-Eval vm_compute in ("<<<M541>>>" ++ check (runes_of_ascii "//x
-packet Header{// " ++ [27880; 37322]%N ++ runes_of_ascii "
-i64 trueish ,	string lengthOf ,match u128 as charz {// packet A { u8 x, }
-""" ++ [128512]%N ++ runes_of_ascii """	: body
-    } ,trueish `` // packet A { u8 x, }
-,
-    tag
-int
-, Foo { //
-match asx  as options1  {65535 :
-x_y_z // `tick` ""quote"" 'q'
-,} ,	zchar trueish, } ,string Foo
-    ,@leftPad
-(
-)
-As @calculatedFrom(""" ++ [28040; 24687]%N ++ runes_of_ascii """ )
-,
-}
-MetaData u8x {} 	 ")).
-Eval vm_compute in ("<<<M3991>>>" ++ check (runes_of_ascii "options
-{}  packet 
-repeatCount {
-	Foo// " ++ [128512]%N ++ runes_of_ascii " emoji
-  T
-
-    , _x
-	`// not a comment`
-
-    ,@calculatedFrom( //	t
-  ""x y""  )repeat	float32
-uint8x  `doc`,
-    char
-msg_type
-@lengthOf( 	 // " ++ [27880; 37322]%N ++ runes_of_ascii "
-    stringy) ,
-    @lengthOf( int
-
-    )
-
-    repeat
-float
-`two words`
-
-    ,
-} MetaData u8x
-
-    // " ++ [27880; 37322]%N ++ runes_of_ascii "
-  	// a // b
-{  }")).
-Eval vm_compute in ("<<<M141>>>" ++ check (runes_of_ascii "packet u  { @calculatedFrom( ""CRC32"" ) repeat zchar[ 1] x_y_z`crlf
-line` ,
-@leftPad
-    ( // `tick` ""quote"" 'q'
-)
-zchar[ // `tick` ""quote"" 'q'
-255
-]crc// c
-, } root
-    packet MetaDataX{@tag( 255 )
-rootA//x
-, }packet f32a {@lengthOf( packetx	) uint8 Z9_ @calculatedFrom(
-""CRC32"" )
-    /// triple
-    ,
-    }
-")).
-Eval vm_compute in ("<<<M212>>>" ++ check (runes_of_ascii "/// triple
-packet A
-{@calculatedFrom(""a\""b"" ) Logon`u8 x,` , metadata BodyLength
-, } // trailing space 
-packet	As{ @rightPad (
-) repeat
-uint8
-chars , i64
-/// triple
-// a // b
-zchar `say ""hi""` ,@rightPad
-( '\x00' )
-@leftPad (
-'0')@lengthOf( int
-) char[
-    65535  ] rootA , } root packet trueish
-{}
-")).
-Eval vm_compute in ("<<<M265>>>" ++ check (runes_of_ascii "MetaData x { char[]crc , char[7 ]float, u64 //	t
-f32a	,}
     packet
-int
-    {Pad/// triple
-@lengthOf(Pad )
-`{ , }`, }
-    MetaData
-/// triple
-//
-T {
-A
-i8i8`it's` ,
-u8x options1 , roots zchar // `tick` ""quote"" 'q'
-,	int16 u8x , char[] a1
-`say ""hi""`, char
+Leg{ 
+} root packet	Quote
+
+{string
+    Side2
+
+    , 
+string lastPx	,
+InSym58  {
+    int16  OrderId
+, Reject
+	,
+
+    i8  Qty
+,
+
+    i64  venue
+	,f32 Note , } ,char[] count,
+zchar[
+9
+
+] 
+price
+,u16
+Qty
+,  match Qty
+
+as
+Body {	69
+
+    :
+    Leg
+,
+48  :Trade
+	,
+	51
+    :
+	Reject
+
+    ,
+	}
+
+, u16	Acct@calculatedFrom(
+    ""CRC32""
+) , 
+}")).
+Eval vm_compute in ("<<<M208>>>" ++ check (runes_of_ascii "packet i64_
+    {} packet
+    crc {
+} options
+{ }root packet
+charz {} packet //
+trueish{ repeat char[
+    255] lengthOf `" ++ [28040; 24687; 31867; 22411]%N ++ runes_of_ascii "` , zchar[
 //	t
 /// triple
-Pad ,
-    } // a // b")).
-Eval vm_compute in ("<<<M1575>>>" ++ check (runes_of_ascii "root packet Foo // " ++ [128512]%N ++ runes_of_ascii " emoji
-{ } options {
-    // a // b
-    tag // `tick` ""quote"" 'q'
-= //	t
-""""
-    ; u8x = zchar[0  ] }
-MetaData
-    int {zchar[ 10]
-lengthOf	`` , i64 u8x`// not a comment` ,MetaDataX pack// `tick` ""quote"" 'q'
-`crlf
-line`
-, , Logon charz `crlf
-line`
-    ,
-    // a // b
-    }
+00 // a // b
+]x`it's` ,/// triple
+repeat	char[]
+    // `tick` ""quote"" 'q'
+    Packet `say ""hi""` , @calculatedFrom(
+""x y"" // " ++ [27880; 37322]%N ++ runes_of_ascii "
+) char[ 1] lengthOf, lengthOf`crlf
+line` ,	match charz as MetaDataX { ""a	b""
+// " ++ [27880; 37322]%N ++ runes_of_ascii "
+// `tick` ""quote"" 'q'
+: uint8x
+    ""\n"" : calculatedFrom } , @tag(	10
+) float64 i8i8 @calculatedFrom( """ ++ [128512]%N ++ runes_of_ascii """ ) `say ""hi""` ,
+@rightPad(
+'\x00' )
+i32
+Foo`it's`	,
+}
 ")).
-Eval vm_compute in ("<<<M1441>>>" ++ check (runes_of_ascii "root packet Foo // " ++ [128512]%N ++ runes_of_ascii " emoji
-{ } options tag
-    // a // b
-    { // `tick` ""quote"" 'q'
-= //	t
-""""
-    ; u8x = zchar[0  ] }
-MetaData
-    int {zchar[ 10]
-lengthOf	`` , i64 u8x`// not a comment` ,MetaDataX pack// `tick` ""quote"" 'q'
-`crlf
-line`
-, Logon charz `crlf
-line`
+Eval vm_compute in ("<<<M179>>>" ++ check (runes_of_ascii "  packet
+    body
+//x
+/// triple
+{ } packet Foo {int @lengthOf( x
+    ) , float32 len
+    `" ++ [28040; 24687; 31867; 22411]%N ++ runes_of_ascii "`, repeat f32a Packet ,	i8 // @lengthOf(
+stringy
+/// triple
+// trailing space 
+@calculatedFrom(""// no comment"" )
+`line1
+line2`
     ,
+@tag( 0
     // a // b
-    }
+    ) match  u
+    as
+    falsey
+    //
+    { [ 10 , 3, ""`tick`"" , 42	, 3// `tick` ""quote"" 'q'
+]
+    : Pad  ,
+7 : repeatCount// c
+, 0 :
+    Foo}, }MetaData Packet { string// c
+u , }options { uint8x = true
+; }
 ")).
-Eval vm_compute in ("<<<M1601>>>" ++ check (runes_of_ascii "root packet Foo // " ++ [128512]%N ++ runes_of_ascii " emoji
-{ } options {
-    // a // b
-    tag // `tick` ""quote"" 'q'
-= //	t
-""""
-    ; u8x = zchar[0  ] }
-MetaData
-    int {zchar[ 10]
-lengthOf	`` , i64 u8x`// not a comment` ,MetaDataX pack// `tick` ""quote"" 'q'
-`crlf
-line`
-, Logon charz `crlf
-line`
-    ,
-    // a // b
-    =
-")).
-Eval vm_compute in ("<<<M1529>>>" ++ check (runes_of_ascii "root packet Foo // " ++ [128512]%N ++ runes_of_ascii " emoji
-{ } options {
-    // a // b
-    tag // `tick` ""quote"" 'q'
-= //	t
-""""
-    ; u8x = zchar[0  ] }
-MetaData
-    int {zchar[ 10]
-lengthOf	 , i64 u8x`// not a comment` ,MetaDataX pack// `tick` ""quote"" 'q'
-`crlf
-line`
-, Logon charz `crlf
-line`
-    ,
-    // a // b
-    }
-")).
-Eval vm_compute in ("<<<M625>>>" ++ check (runes_of_ascii "
-options { u128 = u32 ;Z9_
-=""`tick`"" trueish= ""`tick`"" ;
-    // @lengthOf(
-    tag
-    = '0'
-} options
-    { metadata = ""a	b"" ;
-packetx =//	t
-'\x00' // " ++ [128512]%N ++ runes_of_ascii " emoji
-} options {charz
-    = 65535}
-options {
-    msg_type // trailing space 
-=zchar[
-10 ] ;
-    asx	= false
-    tag
-= char[] ;
-}")).
-Eval vm_compute in ("<<<M4175>>>" ++ check (runes_of_ascii "  options{ 
-LittleEndian 
-= true
-	;
-	ArrayPrefixLenType
-    =
-	u64;  FixedStringPadFromLeft
-=	false
-    ;}packet Quote {
-    }
-root
+Eval vm_compute in ("<<<M1420>>>" ++ check (runes_of_ascii "  packet
+Frame
+{
 
-packet Order
+    u8
 
-    { i64  Side2 ,Quote	,u32 Px
-	,	match Px  as Body{[ 119 ,
-
-147  ]
-: Quote
+HK
 ,
-	}, u16
-Flags @calculatedFrom(
-""CRC32"" ), }
 
-")).
-Eval vm_compute in ("<<<M3489>>>" ++ check (runes_of_ascii "packet MDSnapshotZZ {
-    u8 a,
-}
-packet OrderACK {
-    u16 b,
-}
-packet HTTPServerInfo {
-    string s,
-}
-root packet FIXMsg {
-    u8 KType,
-    MDSnapshotZZ,
-    repeat OrderACK,
-    match KType as Body {
-        1 : HTTPServerInfo,
-        2 : OrderACK,
-    },
-}
-")).
-Eval vm_compute in ("<<<M3923>>>" ++ check (runes_of_ascii "packet u {
-    @calculatedFrom(""CRC32"")
-    repeat zchar[1] x_y_z `crlf
-    line`,
-    @leftPad()
-    zchar[255] crc,
-}
+    u8	BK,	u8  TK
 
-root packet MetaDataX {
-    @tag(255)
-    rootA,
-}
+    ,  match HK
+as  Hdr {
 
-packet f32a {
-    @lengthOf(packetx)
-    uint8 Z9_ @calculatedFrom(""CRC32""),
-}")).
-Eval vm_compute in ("<<<M3556>>>" ++ check (runes_of_ascii "
+    1 :
+HdrA
 
-  packet
-Sub{ u8
-	a
-    , @calculatedFrom( ""CRC16""
-    )
+    ,
+2
+:  HdrB
+	,  },match
+BK as Body{	1: BodyA,2 :
+BodyB  ,
+    } 
+, match TK
+as
+	Trl 
+{1 :	TrlA,	}
+    ,}
+	packet HdrA
+    {
+	u8
 
-i16
-SubSum , }	root	packet
-
-Frame{ u16
-	MsgType  ,
+a,
+	}packet	HdrB {
 u16
 
-    BodyLen@lengthOf(
-    Body
-    ) 
-,Sub
-Body
-,	string
-note
+b  ,
 
-,
-@calculatedFrom(
-""CRC16""	)i16 
-Checksum
-,
-u8 
-tail	, } ")).
-Eval vm_compute in ("<<<M1320>>>" ++ check (runes_of_ascii "root
-packet stringy { match uint8x as roots
-    {
-[ ""a\""b""] :rootA
-, 42
-:
-    int
-    , ""a\\"" : Logon,
-[ 7 ] : o , 65535
-: x	}
-// `tick` ""quote"" 'q'
-// a // b
-,
-@tag( // " ++ [128512]%N ++ runes_of_ascii " emoji
-65535 ) string options1 @lengthOf( Logon
-    ) ,
-    }")).
-Eval vm_compute in ("<<<M240>>>" ++ check (runes_of_ascii "packet T {}  MetaData i8i8{
-    calculatedFrom	u128
-`u8 x,` , string_
-a1	`" ++ [233]%N ++ runes_of_ascii "`
-    ,	Foo
-    int ,
-    zchar[007 ]chars , pack x , crc repeatCount , }packet options1
-{ @tag(1 )char[1]
-f32a ,_x@lengthOf(_x ) ``, } // " ++ [128512]%N ++ runes_of_ascii " emoji")).
-Eval vm_compute in ("<<<M890>>>" ++ check (runes_of_ascii "MetaData pack
-{
-    f64 msg_type ,
-    zchar[4294967296
-    ] Z9_
-, repeatCount chars `two words`, // " ++ [27880; 37322]%N ++ runes_of_ascii "
-} packet options1 {}
-packet options1// " ++ [128512]%N ++ runes_of_ascii " emoji
-{ u128
-// trailing space 
-/// triple
-A
-    ,  repeatCount tag , }
-")).
-Eval vm_compute in ("<<<M2336>>>" ++ check (runes_of_ascii "MetaData Packet { }packet	asx  { @lengthOf( asx) falsey`crlf
-line`
-,
-    }
-    packet x	{uint32// @lengthOf(
-rootA	,u32 options1 `say ""hi""` , @tag( 7 7
-    )// packet A { u8 x, }
-msg_type @lengthOf(
-stringy	)	, }
-
-")).
-Eval vm_compute in ("<<<M2237>>>" ++ check (runes_of_ascii "MetaData Packet { }packet	{  asx @lengthOf( asx) falsey`crlf
-line`
-,
-    }
-    packet x	{uint32// @lengthOf(
-rootA	,u32 options1 `say ""hi""` , @tag( 7
-    )// packet A { u8 x, }
-msg_type @lengthOf(
-stringy	)	, }
-
-")).
-Eval vm_compute in ("<<<M2233>>>" ++ check (runes_of_ascii "MetaData Packet { }@tag(	asx  { @lengthOf( asx) falsey`crlf
-line`
-,
-    }
-    packet x	{uint32// @lengthOf(
-rootA	,u32 options1 `say ""hi""` , @tag( 7
-    )// packet A { u8 x, }
-msg_type @lengthOf(
-stringy	)	, }
-
-")).
-Eval vm_compute in ("<<<M2358>>>" ++ check (runes_of_ascii "MetaData Packet { }packet	asx  { @lengthOf( asx) falsey`crlf
-line`
-,
-    }
-    packet x	{uint32// @lengthOf(
-rootA	,u32 options1 `say ""hi""` , @tag( 7
-    )// packet A { u8 x, }
-msg_type @lengthOf(
-u64	)	, }
-
-")).
-Eval vm_compute in ("<<<M2364>>>" ++ check (runes_of_ascii "MetaData Packet { }packet	asx  { @lengthOf( asx) falsey`crlf
-line`
-,
-    }
-    packet x	{uint32// @lengthOf(
-rootA	,u32 options1 `say ""hi""` , @tag( 7
-    )// packet A { u8 x, }
-msg_type @lengthOf(
-stringy")).
-Eval vm_compute in ("<<<M936>>>" ++ check (runes_of_ascii "packet As {	_x  @lengthOf( f32a)
-    `tab	here`
-    , match chars as chars
-// " ++ [27880; 37322]%N ++ runes_of_ascii "
-//	t
-{ """ ++ [233]%N ++ runes_of_ascii "t" ++ [233]%N ++ runes_of_ascii """ :stringy , ""1"" :
-options1
-    , 255: repeatCount, ""CRC32""
-:float , },
-Logon int `` , uint8x metadata , }
-")).
-Eval vm_compute in ("<<<M3975>>>" ++ check (runes_of_ascii "packet As {
 }
 
-MetaData Logon {
-    i16 falsey `a\`,
-}
+packet BodyA 
+{ 
+u32  c ,
+} packet
 
-MetaData T {
-    f64 uint8x `u8 x,`,// " ++ [128512]%N ++ runes_of_ascii " emoji
-    char[00] T,
-    char[0] Pad `crlf
-    line`,
-    char[] f32a,
-    char[] asx,
-}//	t")).
-Eval vm_compute in ("<<<M3498>>>" ++ check (runes_of_ascii "root packet Frame {
-    u8 K,
-    Logon first,
-    match K as Body {
-        1 : Logon,
-        2 : Logout,
-    },
-}
-packet Logon {
-    string user,
-}
-packet Logout {
-    u16 reason,
-}
-")).
-Eval vm_compute in ("<<<M4512>>>" ++ check (runes_of_ascii "packet A {
-    match k as n {
-        ""\
-        "" : B,
-        [""\
-        "", 1] : C,
-        [
-            1, 2, 3, 4, 5,
-            ""\
-            ""
-        ] : D,
-    },
-}")).
-Eval vm_compute in ("<<<M4406>>>" ++ check (runes_of_ascii "root packet BodyLength {
-    lengthOf {
-        char[42] Foo ``,
-        u64 Foo @calculatedFrom(""x y""),
-    },
-    rootA @lengthOf(Packet),
-}
+    BodyB  {
 
-options {
-    Pad = 00
-}")).
-Eval vm_compute in ("<<<M386>>>" ++ check (runes_of_ascii "packet float
-{  zchar[ 65535
-]
-string_
-`doc` , @rightPad (
-    '\x00' )
-    @calculatedFrom(
-    """ ++ [128512]%N ++ runes_of_ascii """ ) i16
-    repeatCount , zchar[
-    65535
-]_x `crlf
-line`
-,}")).
-Eval vm_compute in ("<<<M4335>>>" ++ check (runes_of_ascii "options {
-    // trailing space 
-    A = ' ';
-    calculatedFrom = ""a\""b"";
-    msg_type = char[4294967296];
-    //
-    rootA = '\x00'
-    msg_type = false
-}")).
-Eval vm_compute in ("<<<M1528>>>" ++ check (runes_of_ascii "root packet Foo // " ++ [128512]%N ++ runes_of_ascii " emoji
-{ } options {
-    // a // b
-    tag // `tick` ""quote"" 'q'
-= //	t
-""""
-    ; u8x = zchar[0  ] }
+    u64	d , }packet
+TrlA { u8
+
+e
+,  }  root packet  Msg {	Frame	, u8 x , }")).
+Eval vm_compute in ("<<<M304>>>" ++ check (runes_of_ascii "
 MetaData
-    int {zchar[ 10]")).
-Eval vm_compute in ("<<<M623>>>" ++ check (runes_of_ascii "packet uint8x
-    // c
-    {
-char[
-    7]stringy
-    @calculatedFrom(""a\""b""  )
-`tab	here` , // c
-@calculatedFrom(
-    ""abc""
-) Logon roots ,}
-")).
-Eval vm_compute in ("<<<M660>>>" ++ check (runes_of_ascii "MetaData tag {
-} MetaData
-pack
-{// packet A { u8 x, }
-} options	{
-MetaDataX='\x00' ;
-leftPad
-// `tick` ""quote"" 'q'
-//x
-= ""{,}"" ; }
-// c
-")).
-Eval vm_compute in ("<<<M1634>>>" ++ check (runes_of_ascii "root packet /// triple
-rootA rootA {	i32
-MetaDataX@calculatedFrom( ""CRC32"" ) `line1
-line2` , } MetaData BodyLength {
-u8
-rootA, } // c")).
-Eval vm_compute in ("<<<M3919>>>" ++ check (runes_of_ascii "
-
-  MetaData
-crc {MetaDataX
-    pack
-    //x
-  , 
-    /// triple
-	// c
-} 
-MetaData	repeatCount { 
-        // " ++ [128512]%N ++ runes_of_ascii " emoji
-
-//
-    }
-
-")).
-Eval vm_compute in ("<<<M1503>>>" ++ check (runes_of_ascii "root packet Foo // " ++ [128512]%N ++ runes_of_ascii " emoji
-{ } options {
-    // a // b
-    tag // `tick` ""quote"" 'q'
-= //	t
-""""
-    ; u8x = zchar[0  ] }
-MetaData")).
-Eval vm_compute in ("<<<M3984>>>" ++ check (runes_of_ascii "
-
-  packet rootA
-    {
-
-int
-	@lengthOf(
-
-Packet  // packet A { u8 x, }
-  ) 	 // `tick` ""quote"" 'q'
-	`// not a comment`
-	,
-}
-
-")).
-Eval vm_compute in ("<<<M368>>>" ++ check (runes_of_ascii "MetaData Header
-    {
-    f64 lengthOf,zchar[ 7 ] zchar
-// `tick` ""quote"" 'q'
-// `tick` ""quote"" 'q'
-`doc` ,
-len
-x_y_z
-, } 	 ")).
-Eval vm_compute in ("<<<M1047>>>" ++ check (runes_of_ascii "options{
-//	t
+a1 {
+u128// @lengthOf(
+As ,char[
+4294967296] lengthOf ,
+uint64 msg_type	, x_y_z f32a
+, float32	o // " ++ [27880; 37322]%N ++ runes_of_ascii "
+,	} options
 // " ++ [27880; 37322]%N ++ runes_of_ascii "
-falsey
-    // c
-    =7 u128
-    =""" ++ [233]%N ++ runes_of_ascii "t" ++ [233]%N ++ runes_of_ascii """ calculatedFrom
-// c
-// c
-= ""// no comment"" // trailing space 
-}")).
-Eval vm_compute in ("<<<M1798>>>" ++ check (runes_of_ascii "packet
-    Pad // a // b
-{ options @calculatedFrom( ""a	b"") `u8 x,` ,
-} options{ float// " ++ [128512]%N ++ runes_of_ascii " emoji
-= f64 i64_
-=//	t
-00 }
-")).
-Eval vm_compute in ("<<<M4523>>>" ++ check (runes_of_ascii "
-packet	calculatedFrom {
-	@tag( 4294967296// c
-
-)
-	u
-
-    msg_type ,
-char[
-3	]
-    crc @lengthOf(len ) `u8 x,` , 
-} ")).
-Eval vm_compute in ("<<<M1802>>>" ++ check (runes_of_ascii "packet
-    Pad // a // b
-{ i8i8 ""a	b"" @calculatedFrom() `u8 x,` ,
-} options{ float// " ++ [128512]%N ++ runes_of_ascii " emoji
-= f64 i64_
-=//	t
-00 }
-")).
-Eval vm_compute in ("<<<M1870>>>" ++ check (runes_of_ascii "packet
-    Pad // a // b
-{ i8i8 @calculatedFrom( ""a	b"") `u8 x,` ,
-} options{ float// " ++ [128512]%N ++ runes_of_ascii " emoji
-= f64 i64_
-=//	t
-00 
-")).
-Eval vm_compute in ("<<<M3046>>>" ++ check (runes_of_ascii "packet A {
-    u16 len @lengthOf(body) `tab
-	x`,
-    u32 crc @calculatedFrom(""CRC32"") `tab
-	x`,
-    string body,
-}")).
-Eval vm_compute in ("<<<M2979>>>" ++ check (runes_of_ascii "packet A {
-  match k as n {
-    [""a"", ""bb"", ""c c"", ""d"", ""e"", ""f"", ""g"", ""h"", ""i"", ""j"", ""k""] : B
-    2 : C
-  },
-}")).
-Eval vm_compute in ("<<<M2995>>>" ++ check (runes_of_ascii "packet A {
-  match k as n {
-    [""a"", 22, ""c c"", 4, ""e"", 66, ""g"", 8, ""i"", 10, ""k"", 12] : B,
-    2 : C
-  },
-}")).
-Eval vm_compute in ("<<<M4092>>>" ++ check (runes_of_ascii "
+// " ++ [128512]%N ++ runes_of_ascii " emoji
+{
+//x
+// @lengthOf(
+}MetaData string_
+    {
+}
+packet roots {
+repeat f32 As `" ++ [28040; 24687; 31867; 22411]%N ++ runes_of_ascii "` , } options {
+    // " ++ [128512]%N ++ runes_of_ascii " emoji
+    uint8x = ""a	b""Packet//
+=42
+;pack =
+    10
+    ;
+    tag= string	; repeatCount = // " ++ [27880; 37322]%N ++ runes_of_ascii "
+char[ 0	] ; }")).
+Eval vm_compute in ("<<<M1497>>>" ++ check (runes_of_ascii "
 packet
-	A  {
+A{ u8 a
 
-    Inner  {
-match k  as n {
-	[
-1 
-,	22	, 007	,
-	4
-	]
-    : B
+,
+
+    } packet
+B {
+
+    u16
+    b
 
     ,
-    }
-	,
+
+    } packet
+
+C { u32
+    c  ,
+} root
+packet  M{ 
+u16 Kc
+
+,
+	u16
+
+Kb,
+    u16
+    Ka
+,
+
+    match
+    Kc 
+as  X	{ 
+9 : 
+A	, 10 :
+B , }
+    , match Kb 
+as
+    Y	{ 2:  C,
+1	:A
+,}	, match 
+Ka
+    as Z	{
+    1
+
+    : 
+B ,
+
 }
-,}
+    , A,
+
+B 
+,
+C 
+,
+}
 
 ")).
-Eval vm_compute in ("<<<M3345>>>" ++ check (runes_of_ascii "packet calculatedFrom { @tag( // c
-4294967296 ) u msg_type , char[ 3 ] crc @lengthOf( len ) `u8 x,` , }")).
-Eval vm_compute in ("<<<M3853>>>" ++ check (runes_of_ascii "
-packet 
-o{
-@tag(
-42
-    ) repeat// c
-	  x 
-{
-
-    char[
-0123456789 ] 
-i64_ ,
-}	,}
-	options
-
-{
-}
-")).
-Eval vm_compute in ("<<<M3041>>>" ++ check (runes_of_ascii "packet A {
-    Inner {
-        u8 x `
-x`,
-        Deep {
-            u8 y `
-x`,
-        },
+Eval vm_compute in ("<<<M1591>>>" ++ check (runes_of_ascii "packet charz {
+    @lengthOf(Pad)
+    match rootA as string_ {
+        [0123456789] : repeatCount,
+        [00, ""it's""] : T,
+        0 : stringy,
+        4294967296 : msg_type,
+        /// triple
     },
-}")).
-Eval vm_compute in ("<<<M1718>>>" ++ check (runes_of_ascii "root packet /// triple
-rootA {	i32
-MetaDataX@calculatedFrom( ""CRC32"" ) `line1
-line2` , } MetaDa")).
-Eval vm_compute in ("<<<M3221>>>" ++ check (runes_of_ascii "packet Logon {
-// c
-@tag( 42 ) @rightPad ( ' ' ) @leftPad ( ) repeat trueish { string T , } , }")).
-Eval vm_compute in ("<<<M3253>>>" ++ check (runes_of_ascii "packet Logon { @tag( 42 ) @rightPad ( ' ' ) @leftPad ( ) repeat trueish { string T ,
-// c
-} , }")).
-Eval vm_compute in ("<<<M4313>>>" ++ check (runes_of_ascii "
-options  {
-	packetx = ' ';
-    } options	{
-	falsey =  
-      // " ++ [128512]%N ++ runes_of_ascii " emoji
-// c
+}
 
-  00
-;
-    } ")).
-Eval vm_compute in ("<<<M3759>>>" ++ check (runes_of_ascii "packet Pad {
-    i8i8 @calculatedFrom(""a	b""),
+packet lengthOf {
+    @tag(7)
+    char[255] float @calculatedFrom(""packet""),
+}")).
+Eval vm_compute in ("<<<M1963>>>" ++ check (runes_of_ascii "packet leftPad {
+    trueish {
+        char[] charz @calculatedFrom(""\n""),
+    },
+    @rightPad('0')
+    @tag(255)
+    len {
+        zchar[65535] f32a,
+    },
+    f64 i8i8 ``,
 }
 
 options {
-    float = f64
-    i64_ = 00
+    chars = 00
+    Pad = false// a // b
+    stringy = string
 }")).
-Eval vm_compute in ("<<<M653>>>" ++ check (runes_of_ascii "packet lengthOf {} root packet
-    i64_ { char[] BodyLength @lengthOf(Header )`doc` , }")).
-Eval vm_compute in ("<<<M2014>>>" ++ check (runes_of_ascii "root
-packet crc
-    { f32a @calculatedFrom( """ ++ [233]%N ++ runes_of_ascii "t" ++ [233]%N ++ runes_of_ascii """ )
-    `say ""hi""`, lengthOf i64 ,  }")).
-Eval vm_compute in ("<<<M2003>>>" ++ check (runes_of_ascii "root
-packet crc
-    { f32a @calculatedFrom( """ ++ [233]%N ++ runes_of_ascii "t" ++ [233]%N ++ runes_of_ascii """ )
-    `say ""hi""`lengthOf , `` ,  }")).
-Eval vm_compute in ("<<<M908>>>" ++ check (runes_of_ascii "packet T {
-    @lengthOf(As )
-u8x `tab	here` ,	} MetaData f32a {
-uint64 trueish , }")).
-Eval vm_compute in ("<<<M2901>>>" ++ check (runes_of_ascii "packet A {
+Eval vm_compute in ("<<<M1248>>>" ++ check (runes_of_ascii "// top
+packet // c0
+calculatedFrom // c1
+{ // c2
+@tag( // c3
+4294967296 // c4
+) // c5
+u // c6
+msg_type // c7
+, // c8
+char[ // c9
+3 // c10
+] // c11
+crc // c12
+@lengthOf( // c13
+len // c14
+) // c15
+`u8 x,` // c16
+, // c17
+} // c18
+")).
+Eval vm_compute in ("<<<M12>>>" ++ check (runes_of_ascii "  MetaData	calculatedFrom
+{char[]
+lengthOf
+    , } // trailing space 
+root // " ++ [27880; 37322]%N ++ runes_of_ascii "
+packet _x { @calculatedFrom(""" ++ [28040; 24687]%N ++ runes_of_ascii """) repeat zchar _x ,
+    // packet A { u8 x, }
+    repeat zchar[42//x
+]
+Pad , @tag(42	)char[ 42] u8x
+    ,}
+")).
+Eval vm_compute in ("<<<M527>>>" ++ check (runes_of_ascii "options
+{
+matchKey = 42/// triple
+x='0' ;
+// packet A { u8 x, }
+//
+charz
+=
+// packet A { u8 x, }
+// trailing space 
+true  ; } MetaData BodyLength
+{
+uint8
+pack,zchar[ 1]float ,  float32 x_y_z `` , ,u32
+_x,i16 body  , }
+")).
+Eval vm_compute in ("<<<M403>>>" ++ check (runes_of_ascii "options
+{
+matchKey 42 =/// triple
+x='0' ;
+// packet A { u8 x, }
+//
+charz
+=
+// packet A { u8 x, }
+// trailing space 
+true  ; } MetaData BodyLength
+{
+uint8
+pack,zchar[ 1]float ,  float32 x_y_z `` ,u32
+_x,i16 body  , }
+")).
+Eval vm_compute in ("<<<M553>>>" ++ check (runes_of_ascii "options
+{
+matchKey = 42/// triple
+x='0' ;
+// packet A { u8 x, }
+//
+charz
+=
+// packet A { u8 x, }
+// trailing space 
+true  ; } MetaData BodyLength
+{
+uint8
+pack,zchar[ 1]float ,  float32 x_y_z `` ,u32
+_x,i16 ,  body }
+")).
+Eval vm_compute in ("<<<M399>>>" ++ check (runes_of_ascii "options
+{
+true = 42/// triple
+x='0' ;
+// packet A { u8 x, }
+//
+charz
+=
+// packet A { u8 x, }
+// trailing space 
+true  ; } MetaData BodyLength
+{
+uint8
+pack,zchar[ 1]float ,  float32 x_y_z `` ,u32
+_x,i16 body  , }
+")).
+Eval vm_compute in ("<<<M26>>>" ++ check (runes_of_ascii "  packet lengthOf// " ++ [27880; 37322]%N ++ runes_of_ascii "
+{ @leftPad(
+)
+    // a // b
+    @tag( 7
+//x
+/// triple
+)
+u8 BodyLength ,
+    char[ 1
+] chars
+`
+`,
+@tag( 00 )char[ 0]
+    // packet A { u8 x, }
+    Z9_ @lengthOf(
+float) `u8 x,` ,
+}")).
+Eval vm_compute in ("<<<M520>>>" ++ check (runes_of_ascii "options
+{
+matchKey = 42/// triple
+x='0' ;
+// packet A { u8 x, }
+//
+charz
+=
+// packet A { u8 x, }
+// trailing space 
+true  ; } MetaData BodyLength
+{
+uint8
+pack,zchar[ 1]float ,  float32")).
+Eval vm_compute in ("<<<M715>>>" ++ check (runes_of_ascii "// c
+packet i64_ {	char[] calculatedFrom , } packet
+trueish  {@calculatedFrom(
+""a\\"" ) o { i32 falsey@lengthOf( uint8x ),
+} , , } // `tick` ""quote"" 'q'
+options {// c
+Z9_ = ' '//
+}
+")).
+Eval vm_compute in ("<<<M668>>>" ++ check (runes_of_ascii "// c
+packet i64_ {	char[] calculatedFrom , } packet
+trueish  {@calculatedFrom(
+""a\\"" ) o {  falsey@lengthOf( uint8x ),
+} , } // `tick` ""quote"" 'q'
+options {// c
+Z9_ = ' '//
+}
+")).
+Eval vm_compute in ("<<<M1750>>>" ++ check (runes_of_ascii "options {
+    As = false;
+}
+
+root packet calculatedFrom {
+    zchar[255] Z9_,
+}
+
+MetaData metadata {
+    int8 chars,
+    char[] charz `two words`,
+    char[0] rootA,
+}")).
+Eval vm_compute in ("<<<M72>>>" ++ check (runes_of_ascii "packet
+Header//	t
+{ float32
+repeatCount @lengthOf(
+f32a
+/// triple
+// a // b
+) , }options{ As	= true; } packet Pad
+{ @rightPad
+( ' ' ) leftPad
+    , }
+")).
+Eval vm_compute in ("<<<M1647>>>" ++ check (runes_of_ascii "packet A {
+    match k as n {
+        [
+            ""a"", 22, ""c c"", 4, ""e"",
+            66, ""g"", 8, ""i""
+        ] : B,
+        2 : C,
+    },
+}")).
+Eval vm_compute in ("<<<M1359>>>" ++ check (runes_of_ascii "options {
+    LittleEndian = true;
+}
+packet B {
+    u8 a,
+    string s,
+}
+root packet P {
+    u16 L @lengthOf(B),
+    B,
+    u8 t,
+}
+")).
+Eval vm_compute in ("<<<M638>>>" ++ check (runes_of_ascii "MetaData
+    // trailing space 
+    matchKey
+{ u64 chars // a // b
+,char[] lengthOf `// not a comment`
+    , //	t
+@lengthOf(")).
+Eval vm_compute in ("<<<M148>>>" ++ check (runes_of_ascii "packet i8i8 //x
+{int16 // trailing space 
+stringy // " ++ [128512]%N ++ runes_of_ascii " emoji
+@calculatedFrom(
+""// no comment"" ),
+} packet
+_x {
+    }
+")).
+Eval vm_compute in ("<<<M656>>>" ++ check (runes_of_ascii "MetaData
+    // trailing space 
+    matchKey
+<{ u64 chars // a // b
+,char[] lengthOf `// not a comment`
+    , //	t
+}")).
+Eval vm_compute in ("<<<M631>>>" ++ check (runes_of_ascii "MetaData
+    // trailing space 
+    matchKey
+{ u64 chars // a // b
+,char[] lengthOf `// not a comment`
+     //	t
+}")).
+Eval vm_compute in ("<<<M1637>>>" ++ check (runes_of_ascii "// c
+	  packet Logon {@tag( 42 
+)@rightPad 
+( 
+' ' )	@leftPad ( 
+)repeat
+trueish
+
+    {
+	string T
+,
+}
+
+, }
+
+")).
+Eval vm_compute in ("<<<M4>>>" ++ check (runes_of_ascii "packet // a // b
+tag {
+    char[ 7]
+body
+@calculatedFrom( ""a	b"")
+// trailing space 
+// trailing space 
+,
+}")).
+Eval vm_compute in ("<<<M1365>>>" ++ check (runes_of_ascii "options {
+    LittleEndian = true;
+}
+root packet P {
+    u16 a,
+    u32 Sum @calculatedFrom(""CRC32""),
+}
+")).
+Eval vm_compute in ("<<<M1276>>>" ++ check (runes_of_ascii "packet calculatedFrom { @tag( 4294967296 ) u msg_type , char[ 3 ]
+// c
+crc @lengthOf( len ) `u8 x,` , }")).
+Eval vm_compute in ("<<<M1491>>>" ++ check (runes_of_ascii "packet o {
+    @tag(42)
+    // c
+    repeat x {
+        char[0123456789] i64_,
+    },
+}
+
+options {
+}")).
+Eval vm_compute in ("<<<M1173>>>" ++ check (runes_of_ascii "packet Logon { @tag( 42 ) @rightPad ( ' ' ) @leftPad ( ) repeat trueish { string T , } , }
+// c
+")).
+Eval vm_compute in ("<<<M1154>>>" ++ check (runes_of_ascii "packet Logon { @tag( 42 ) @rightPad ( ' ' ) @leftPad ( ) // c
+repeat trueish { string T , } , }")).
+Eval vm_compute in ("<<<M890>>>" ++ check (runes_of_ascii "packet A {
   match k as n {
-    [""a"", ""bb"", ""c c"", ""d"", ""e""] : B
+    [1, 22, 007, 4, 5, 66, 7, 8, 9, 10, 11] : B,
     2 : C
   },
 }")).
-Eval vm_compute in ("<<<M3320>>>" ++ check (runes_of_ascii "packet o { @tag( 42 ) repeat x { char[ 0123456789 ] i64_ , // c
-} , } options { }")).
-Eval vm_compute in ("<<<M125>>>" ++ check (runes_of_ascii "root
-packet x_y_z{
-// a // b
-// packet A { u8 x, }
-repeat falsey // " ++ [27880; 37322]%N ++ runes_of_ascii "
-`" ++ [233]%N ++ runes_of_ascii "` , }")).
-Eval vm_compute in ("<<<M4432>>>" ++ check (runes_of_ascii "  // `tick` ""quote"" 'q'
-    packet
-zchar { repeat
-char[1 ] 
-f32a
-``
+Eval vm_compute in ("<<<M1597>>>" ++ check (runes_of_ascii "
+root 
+packet
 
-    ,	}")).
-Eval vm_compute in ("<<<M332>>>" ++ check (runes_of_ascii "options
-    { packetx =
-    ' ' ;}options {	falsey =
-// " ++ [128512]%N ++ runes_of_ascii " emoji
+SimpleMessage{
+	uint16	MsgType
+`" ++ [28040; 24687; 31867; 22411]%N ++ runes_of_ascii "` ,string
+JsonBody `Json" ++ [23383; 31526; 20018; 28040; 24687; 20307]%N ++ runes_of_ascii "`	,
+
+}")).
+Eval vm_compute in ("<<<M1335>>>" ++ check (runes_of_ascii "options {
+    LittleEndian = true;
+}
+root packet P {
+    repeat char cs,
+    u8 x,
+}
+")).
+Eval vm_compute in ("<<<M847>>>" ++ check (runes_of_ascii "packet A {
+  match k as n {
+    [1, 22, ""c c"", 4, 5, ""f"", 7] : B
+    2 : C
+  },
+}")).
+Eval vm_compute in ("<<<M1237>>>" ++ check (runes_of_ascii "packet o { @tag( 42 ) repeat x { char[ 0123456789 ] i64_ , }
 // c
-00 ; }")).
-Eval vm_compute in ("<<<M2177>>>" ++ check (runes_of_ascii "root
-    // `tick` ""quote"" 'q'
-    packet As { trueish Packet Packet , }
-")).
-Eval vm_compute in ("<<<M3849>>>" ++ check (runes_of_ascii "packet Inner
-	{u8	a
-,
-} root
-
-packet	P
-	{
-Inner ref_obj ,u8
-x  ,  }
-
-")).
-Eval vm_compute in ("<<<M3412>>>" ++ check (runes_of_ascii "MetaData _x { zchar[ 4294967296 ] lengthOf `// not a comment` ,
-// c
+, } options { }")).
+Eval vm_compute in ("<<<M971>>>" ++ check (runes_of_ascii "packet A {
+    u32 crc @calculatedFrom(""\
+""),
+    @calculatedFrom(""\
+"") u8 y,
 }")).
-Eval vm_compute in ("<<<M2188>>>" ++ check (runes_of_ascii "root
-    // `tick` ""quote"" 'q'
-    packet As { trueish Packet , i32
-")).
-Eval vm_compute in ("<<<M918>>>" ++ check (runes_of_ascii "MetaData u128 {options1 // a // b
-falsey ,
-zchar[ 007 //
-] x
-, }
-")).
-Eval vm_compute in ("<<<M2166>>>" ++ check (runes_of_ascii "root
-    // `tick` ""quote"" 'q'
-    packet As  trueish Packet , }
-")).
-Eval vm_compute in ("<<<M3266>>>" ++ check (runes_of_ascii "// top
-options // c0
-{ // c1
-u8x // c2
-= // c3
-3 // c4
-} // c5
-")).
-Eval vm_compute in ("<<<M497>>>" ++ check (runes_of_ascii "packet T { u64
-asx @calculatedFrom( ""// no comment"" ) ,	} 	 ")).
-Eval vm_compute in ("<<<M223>>>" ++ check (runes_of_ascii "options //	t
-{  MetaDataX = // " ++ [128512]%N ++ runes_of_ascii " emoji
-'0';  } /// triple")).
-Eval vm_compute in ("<<<M3173>>>" ++ check (runes_of_ascii "packet A { @tag(1) // a
- @leftPad('0') // b
- char[4] x, }")).
-Eval vm_compute in ("<<<M1912>>>" ++ check (runes_of_ascii "
-packet	As { ""{,}""//x
-@calculatedFrom(	)lengthOf , } 	 ")).
-Eval vm_compute in ("<<<M1235>>>" ++ check (runes_of_ascii "root packet Pad { zchar[7 ]
-    float // a // b
-, }
-")).
-Eval vm_compute in ("<<<M2406>>>" ++ check (runes_of_ascii "MetaData A
-{
-i64
-options	, } // `tick` ""quote"" 'q'")).
-Eval vm_compute in ("<<<M4517>>>" ++ check (runes_of_ascii "
-MetaData zchar  // c
-	{  zchar[ 3 
-] 
-Pad,	}
-")).
-Eval vm_compute in ("<<<M1925>>>" ++ check (runes_of_ascii "
-packet	As { @calculatedFrom(//x
-""{,}""	) , } 	 ")).
-Eval vm_compute in ("<<<M2414>>>" ++ check (runes_of_ascii "MetaData A
-{
-i64
-a" ++ [769]%N ++ runes_of_ascii "b	, } // `tick` ""quote"" 'q'")).
-Eval vm_compute in ("<<<M1761>>>" ++ check (runes_of_ascii "options { }options {   // `tick` ""quote"" 'q'")).
-Eval vm_compute in ("<<<M355>>>" ++ check (runes_of_ascii "root
-    packet repeatCount {	A	,
-    } 	 ")).
-Eval vm_compute in ("<<<M3151>>>" ++ check (runes_of_ascii "packet A {
-    u8 x,    // c    u8 y,
+Eval vm_compute in ("<<<M2005>>>" ++ check (runes_of_ascii "root packet P {
+    u16 a,
+    u32 Sum @calculatedFrom(""CR\
+        C32""),
 }")).
-Eval vm_compute in ("<<<M2781>>>" ++ check (runes_of_ascii "} char[] uint64 @calculatedFrom( ""a	b"" :")).
-Eval vm_compute in ("<<<M2141>>>" ++ check (runes_of_ascii "`MetaData x
-{// " ++ [128512]%N ++ runes_of_ascii " emoji
-i16 stringy , }")).
-Eval vm_compute in ("<<<M2748>>>" ++ check (runes_of_ascii "rD(M@OeK<d_*ItH)vbF,tM+2&sK)bFfhRUIF6y")).
-Eval vm_compute in ("<<<M3181>>>" ++ check (runes_of_ascii "packet A { u8 x,// a
-
-
-// b
-
- u8 y, }")).
-Eval vm_compute in ("<<<M1136>>>" ++ check (runes_of_ascii "root packet //	t
-packetx { //x
+Eval vm_compute in ("<<<M1795>>>" ++ check (runes_of_ascii "packet A {
+    B b `
+    x`,
+    B `
+    x`,
+    repeat B bs `
+    x`,
 }")).
-Eval vm_compute in ("<<<M3007>>>" ++ check (runes_of_ascii "root packet A {
-    u8 x `a
+Eval vm_compute in ("<<<M1319>>>" ++ check (runes_of_ascii "MetaData _x { zchar[ 4294967296 ] // c
+lengthOf `// not a comment` , }")).
+Eval vm_compute in ("<<<M923>>>" ++ check (runes_of_ascii "packet A {
+    B b `a
+b`,
+    B `a
+b`,
+    repeat B bs `a
 b`,
 }")).
-Eval vm_compute in ("<<<M2622>>>" ++ check (runes_of_ascii "packet A { @leftPad('0' u8 x, }")).
-Eval vm_compute in ("<<<M3093>>>" ++ check (runes_of_ascii "packet A {
- u8 x `d" ++ [8202]%N ++ runes_of_ascii "`, // c" ++ [8202]%N ++ runes_of_ascii "
-}")).
-Eval vm_compute in ("<<<M161>>>" ++ check (runes_of_ascii "packet u {A
-    trueish , }
+Eval vm_compute in ("<<<M824>>>" ++ check (runes_of_ascii "packet A { Inner { match k as n { [1,22,007,4,5] : B, }, }, }")).
+Eval vm_compute in ("<<<M1087>>>" ++ check (runes_of_ascii "packet A { @tag(1) // a
+ @leftPad('0') // b
+ char[4] x, }")).
+Eval vm_compute in ("<<<M1332>>>" ++ check (runes_of_ascii "root packet P {
+    repeat char cs,
+    u8 x,
+}
 ")).
-Eval vm_compute in ("<<<M2596>>>" ++ check (runes_of_ascii "packet A { B { u8 x, } C, }")).
-Eval vm_compute in ("<<<M2445>>>" ++ check (runes_of_ascii "int8 int16 int32 int64 int")).
-Eval vm_compute in ("<<<M2745>>>" ++ check (runes_of_ascii "{ [ as uint64 @tag( char[")).
-Eval vm_compute in ("<<<M3169>>>" ++ check (runes_of_ascii "packet A { // a
- u8 x, }")).
-Eval vm_compute in ("<<<M2136>>>" ++ check (runes_of_ascii "MetaData x
-{// " ++ [128512]%N ++ runes_of_ascii " emoji
+Eval vm_compute in ("<<<M1120>>>" ++ check (runes_of_ascii "MetaData zchar { zchar[ 3 ] Pad , } // c
 ")).
-Eval vm_compute in ("<<<M2636>>>" ++ check (runes_of_ascii "root root packet A { }")).
-Eval vm_compute in ("<<<M4299>>>" ++ check (runes_of_ascii "packet A {
-    // a
+Eval vm_compute in ("<<<M970>>>" ++ check (runes_of_ascii "options {
+    a = ""\
+"";
+    b = ""\
+""
 }")).
-Eval vm_compute in ("<<<M2571>>>" ++ check (runes_of_ascii "packet A { x `d`, }")).
-Eval vm_compute in ("<<<M2080>>>" ++ check (runes_of_ascii "MetaData A { u64 p")).
-Eval vm_compute in ("<<<M3112>>>" ++ check (runes_of_ascii "// c" ++ [8287]%N ++ runes_of_ascii "
+Eval vm_compute in ("<<<M1517>>>" ++ check (runes_of_ascii "packet A {
+    @tag(1)
+    u8 x,
+}")).
+Eval vm_compute in ("<<<M78>>>" ++ check (runes_of_ascii "options { zchar=
+    false ; }")).
+Eval vm_compute in ("<<<M1584>>>" ++ check (runes_of_ascii "options {
+    u8x = 3
+}
+// c")).
+Eval vm_compute in ("<<<M1185>>>" ++ check (runes_of_ascii "options // c
+{ u8x = 3 }")).
+Eval vm_compute in ("<<<M1063>>>" ++ check (runes_of_ascii "packet A {
+}// a// b")).
+Eval vm_compute in ("<<<M991>>>" ++ check (runes_of_ascii "// c" ++ [133]%N ++ runes_of_ascii "
 packet A {
 }")).
-Eval vm_compute in ("<<<M2794>>>" ++ check (runes_of_ascii "?" ++ [65533]%N ++ runes_of_ascii "c" ++ [65533; 65533; 65533; 65533; 65533; 15; 65533; 65533]%N ++ runes_of_ascii "g" ++ [65533; 65533; 1439; 26]%N ++ runes_of_ascii "'")).
-Eval vm_compute in ("<<<M2658>>>" ++ check (runes_of_ascii "options { = 1; }")).
-Eval vm_compute in ("<<<M2631>>>" ++ check (runes_of_ascii "packet A { } 1")).
-Eval vm_compute in ("<<<M545>>>" ++ check (runes_of_ascii "options
-{}")).
-Eval vm_compute in ("<<<M2486>>>" ++ check (runes_of_ascii "@lengthOf")).
-Eval vm_compute in ("<<<M4306>>>" ++ check (runes_of_ascii "  // c
+Eval vm_compute in ("<<<M743>>>" ++ check (runes_of_ascii ", , `u8 x,` u32 (")).
+Eval vm_compute in ("<<<M290>>>" ++ check (runes_of_ascii "options{  }
 ")).
-Eval vm_compute in ("<<<M2431>>>" ++ check (runes_of_ascii "char1")).
-Eval vm_compute in ("<<<M3120>>>" ++ check (runes_of_ascii "// c" ++ [12]%N)).
-Eval vm_compute in ("<<<M3564>>>" ++ check (runes_of_ascii "// c")).
-Eval vm_compute in ("<<<M2676>>>" ++ check (runes_of_ascii """s""")).
-Eval vm_compute in ("<<<M2474>>>" ++ check (runes_of_ascii "'")).
+Eval vm_compute in ("<<<M989>>>" ++ check (runes_of_ascii "// c" ++ [133]%N)).
